@@ -105,6 +105,10 @@ class C18(Prop):
             body.append('}')
             if 'Deref' in m['traits']:
                 mods.append(l2.Module(r.cid, '\n'.join(body), r))
+                if r.cid % 3 == 0:
+                    # the same program with the struct declared through a macro_rules! macro
+                    mods.append(l2.Module(r.cid + 10 ** 6, '\n'.join([l2.via_macro(head, r.item)] + body[1:]).replace(
+                        '"%d\\t' % r.cid, '"%d\\t' % (r.cid + 10 ** 6)), r))
         failures, samples = [], []
         validated = 0
         exe = l2.compile_batch('c18run', mods)
@@ -115,14 +119,15 @@ class C18(Prop):
             r = mo.meta
             if not mo.compiled:
                 failures.append(dict(**{'class': 'deref-does-not-compile', 'mode': 'compile'},
-                                     input=r.input_text(), observed=[d['message'] for d in mo.diags][:3],
+                                     input=r.input_text() + ('   [item declared through a macro_rules! macro that writes the '
+                                                             'attribute: see vlib/l2.py via_macro]' if mo.cid >= 10 ** 6 else ''), observed=[d['message'] for d in mo.diags][:3],
                                      expected='compiles; deref returns the field itself'))
                 continue
             got = obs.get(str(mo.cid), [])
             want = [('ptr', 'true')] + ([('mutptr', 'true'), ('write', 'true')] if 'DerefMut' in r.meta['traits'] else [])
             if got != want:
                 failures.append(dict(**{'class': 'deref-wrong-target', 'mode': 'behaviour'},
-                                     input=r.input_text(), expected=want, observed=got))
+                                     input=r.input_text() + ('   [declared through macro_rules!]' if mo.cid >= 10 ** 6 else ''), expected=want, observed=got))
             else:
                 validated += 1
                 if len(samples) < 2:
